@@ -27,6 +27,8 @@ class RefModel:
         self.comps = resp.get("comps", [])
         self.annots = resp.get("annots", [])
         self.mentioned = resp.get("mentioned", [])
+        self.wf = resp.get("wf")
+        self.gen_rhs_valid = resp.get("gen_rhs_valid")
         self.order = self._topo()
 
     def deriv_of(self, state):
@@ -106,6 +108,17 @@ def lean_load(ctx: Ctx, text: str, deps: dict | None = None):
     if r.get("topo_ref_agrees") is False:
         ctx.broke("correspondence", "staticOrder (edge-list formulation) vs staticOrderRef (graphlib mirror)", text)
     return RefModel(r), None
+
+
+def check_wf(ctx: Ctx, rm: "RefModel", text: str):
+    """the hypotheses of the Impl-layer theorems (GenValid.genRhs_valid) hold for an accepted model for which
+    code was generated, and then the model's generator passes the validator (re-checked by evaluation)"""
+    if rm.wf is False:
+        ctx.broke("correspondence", "an accepted model for which code was generated is not ModelWF in the Lean loader model", text)
+    elif rm.wf and rm.gen_rhs_valid is False:
+        ctx.broke("proof-obligation", "GenValid.genRhs_valid contradicted by evaluation (checkRhs (Impl.genRhs m) = false on a ModelWF model)", text)
+    if rm.wf:
+        ctx.count("models_wf")
 
 
 def module_layout(dicts: dict) -> dict:
@@ -267,6 +280,7 @@ def build_py(ctx: Ctx, text: str, tag: str, backend: str = "numpy", rm: RefModel
                     f"accepted model, but {backend} code generation raised {type(ex).__name__}: {str(ex)[:120]}",
                     case={"text": text, "opts": _jsonable(opts)}, error=repr(ex))
         return None
+    check_wf(ctx, rm, text)
     b.funcs, b.dicts = translate.py_module(b.code)
     lay = module_layout(b.dicts)
     if lay["state"] is None or lay["param"] is None or lay["monitor"] is None:
